@@ -18,7 +18,7 @@ import sys
 import threading
 
 from .. import decode as dec
-from ..boot import SIM, set_capacity
+from ..boot import SIM, rearm_watchdog, set_capacity
 from ..sched import Abandoned, Sched
 
 NAME = "T"
@@ -369,6 +369,7 @@ def run_plan(plan, cfg=None):
     shared = sw.get("kind") == "shared"
     probe = "parked_at_shared_access" if shared else "parked_at_shared_write"
     for k in range(1, sw["max"] + 1):
+        rearm_watchdog()
         p = copy.deepcopy(plan)
         p["park_sweep"] = None
         p["decisions"] = None
